@@ -11,6 +11,7 @@ From SF Require Import Unsized.Proofs.EncodeParse Unsized.Proofs.Mem Unsized.Pro
   Unsized.Proofs.GenOps2 Unsized.Proofs.Init Unsized.Proofs.UInsert Unsized.Proofs.URemove Unsized.Proofs.History
   Unsized.Proofs.History2.
 From SF Require Import Unsized.Run Unsized.Proofs.ExecTie.
+From SF Require Import Unsized.Proofs.EnumFacts.
 
 Arguments Z.add : simpl never.
 Arguments Z.sub : simpl never.
@@ -21,15 +22,15 @@ Arguments Z.modulo : simpl never.
 
 (* ---------------------------------------------------------------------------------------------- *)
 (* the op-code encoding of the full operation set (the case-file format: harness/src/nodes.rs)     *)
-Definition enc_xop (o : xop) : list Z :=
+Definition enc_xop (t : ty) (v : val) (o : xop) : list Z :=
   match o with
-  | XList g => enc_op g
-  | XWrite pi idx item => enc_path pi ++ 14 :: idx :: zlen item :: item
-  | XRemLen pi len => enc_path pi ++ [20; len]
-  | XRemWrite pi idx b => enc_path pi ++ [21; idx; b]
-  | XUInsert pi idx n => enc_path pi ++ [30; idx; Z.of_nat n; 0]
-  | XURemove pi st en => enc_path pi ++ [31; st; en]
-  | XUClear pi => enc_path pi ++ [33]
+  | XList g => enc_op t v g
+  | XWrite pi idx item => enc_path t v pi ++ 14 :: idx :: zlen item :: item
+  | XRemLen pi len => enc_path t v pi ++ [20; len]
+  | XRemWrite pi idx b => enc_path t v pi ++ [21; idx; b]
+  | XUInsert pi idx n => enc_path t v pi ++ [30; idx; Z.of_nat n; 0]
+  | XURemove pi st en => enc_path t v pi ++ [31; st; en]
+  | XUClear pi => enc_path t v pi ++ [33]
   end.
 
 (* one step of the dispatcher on the six new op codes *)
@@ -69,19 +70,20 @@ Lemma dec_items_one item : dec_items 1 (zlen item :: item) = ([item], []).
 Proof. cbn [dec_items dec_bytes]. rewrite ztake_all, zdrop_all. reflexivity. Qed.
 
 (* ---------------------------------------------------------------------------------------------- *)
-(* ExecTie.exec_path for a path that resolves to ANY type X: descent, then F at the end             *)
+(* ExecTie.exec_path for a path that resolves to ANY type X but the empty struct (the payload of a unit variant,
+   into which the dispatcher does not descend): descent, then F at the end                           *)
 Lemma exec_path_x ovf t v s (F : ptr -> out res) tail pi X xv :
-  resolve t v pi = Some (X, xv) ->
+  resolve t v pi = Some (X, xv) -> X <> TStruct [] ->
   (forall f top' pc, get_at t top' (mpath pi) = Some (X, pc) ->
                      exec (S f) ovf t s top' (mpath pi) tail = F top') ->
-  forall r pre top fuel,
-  pre ++ r = pi -> RepF pre t v s top -> (length r < fuel)%nat ->
+  forall r pre top fuel tc vc,
+  pre ++ r = pi -> resolve t v pre = Some (tc, vc) -> RepF pre t v s top -> (length r < fuel)%nat ->
   exists top1, menter ovf t s top (mpath pre) r = Ok top1 /\
-    (exec fuel ovf t s top (mpath pre) (enc_path r ++ tail) = F top1 \/
+    (exec fuel ovf t s top (mpath pre) (enc_path tc vc r ++ tail) = F top1 \/
      exists code topk, F top1 = Err code /\ code <> -9 /\
-                       exec fuel ovf t s top (mpath pre) (enc_path r ++ tail) = Ok (s, topk, [-1; code])).
+                       exec fuel ovf t s top (mpath pre) (enc_path tc vc r ++ tail) = Ok (s, topk, [-1; code])).
 Proof.
-  intros Hres Hfin. induction r as [|st r IH]; intros pre top fuel Hpi R Hfuel.
+  intros Hres HXne Hfin. induction r as [|st r IH]; intros pre top fuel tc vc Hpi Hpre0 R Hfuel.
   - rewrite app_nil_r in Hpi. subst pre. exists top. split; [reflexivity|]. left.
     destruct fuel as [|f]; [cbn [length] in Hfuel; lia|].
     pose proof R as [Hpl Hok Hwf _ _ HL _].
@@ -89,15 +91,18 @@ Proof.
     cbn [enc_path app]. exact (Hfin f top node Hg).
   - destruct fuel as [|f]; [lia|]. cbn [length] in Hfuel.
     rewrite <- Hpi in Hres.
-    destruct (resolve_app pre (st :: r) t v _ _ Hres) as (tc & vc & Hpre & Hrest).
+    destruct (resolve_app pre (st :: r) t v _ _ Hres) as (tc' & vc' & Hpre & Hrest).
+    rewrite Hpre0 in Hpre. injection Hpre as <- <-. pose proof Hpre0 as Hpre.
     pose proof R as [Hpl Hok Hwf [junk Hmem] Hlen HL Hc32].
     assert (Hpi' : (pre ++ [st]) ++ r = pi) by (rewrite <- app_assoc; exact Hpi).
     destruct (LayP_get_at Lay pre t v 0 top _ _ Hwf Hpre HL) as (node & Hg & HE).
-    destruct st as [i|i]; cbn [menter resolve enc_path app] in *.
+    destruct st as [i|i|]; cbn [menter resolve enc_path app] in *.
     + destruct tc as [| | | |ts|]; try discriminate. destruct vc as [| | |vs|]; try discriminate.
       destruct (nth_error ts i) as [ti|] eqn:Et; [|discriminate]. destruct (nth_error vs i) as [vi|] eqn:Ev; [|discriminate].
       pose proof (LayP_extend_SF pre t v 0 top ts vs i ti vi Hwf Hpre Et Ev HL) as HL'.
-      destruct (IH (pre ++ [SF i]) top f Hpi' (repf_refocus _ _ _ _ _ _ _ R HL') ltac:(lia)) as (top1 & Hm & Hex).
+      assert (Hpre' : resolve t v (pre ++ [SF i]) = Some (ti, vi)).
+      { rewrite (resolve_app_eq _ [SF i] _ _ _ _ Hpre). cbn [resolve]. now rewrite Et, Ev. }
+      destruct (IH (pre ++ [SF i]) top f ti vi Hpi' Hpre' (repf_refocus _ _ _ _ _ _ _ R HL') ltac:(lia)) as (top1 & Hm & Hex).
       rewrite mpath_app in Hm, Hex. cbn [mpath map mstep_of] in Hm, Hex.
       exists top1. split; [exact Hm|].
       rewrite exec_descend. unfold sub. rewrite Hg. cbn [obind]. rewrite Nat2Z.id. exact Hex.
@@ -109,7 +114,9 @@ Proof.
       rewrite (ulist_range_elem pre t v top it k items i kv junk Hpl Hwf Hpre En HL a n inner pmb rs re Hg). cbn [obind].
       destruct (ulist_enter_LayP ovf pre t true v s top it k items i kv junk Hpl Hok Hwf Hpre En HL Hmem) as (top1 & He & HL1).
       rewrite He. cbn [obind].
-      destruct (IH (pre ++ [SE i]) top1 f Hpi' (repf_refocus _ _ _ _ _ _ _ R HL1) ltac:(lia)) as (top' & Hm & Hex).
+      assert (Hpre' : resolve t v (pre ++ [SE i]) = Some (it, snd kv)).
+      { rewrite (resolve_app_eq _ [SE i] _ _ _ _ Hpre). cbn [resolve]. now rewrite En. }
+      destruct (IH (pre ++ [SE i]) top1 f it (snd kv) Hpi' Hpre' (repf_refocus _ _ _ _ _ _ _ R HL1) ltac:(lia)) as (top' & Hm & Hex).
       rewrite mpath_app in Hm, Hex. cbn [mpath map mstep_of] in Hm, Hex.
       exists top'. split; [exact Hm|].
       destruct Hex as [Hex|(code & topk & HF & Hne & Hex)]; rewrite Hex.
@@ -118,18 +125,32 @@ Proof.
         -- zb. subst code. left. reflexivity.
         -- zb. right. exists code, top1. split; [reflexivity|]. split; [exact E9|reflexivity].
       * right. exists code, topk. split; [exact HF|]. split; [exact Hne|reflexivity].
+    + destruct tc as [| | | | |rw vars]; try discriminate. destruct vc as [| | | |d pv]; try discriminate.
+      destruct (find_variant d vars) as [vt|] eqn:Ef; [|discriminate].
+      destruct node as [| | | | |st0 d' q]; try (cbn in HE; contradiction).
+      apply Lay_enum in HE. destruct HE as (_ & -> & _).
+      pose proof (LayP_extend_SV pre t v 0 top rw vars d pv vt Hwf Hpre Ef HL) as HL'.
+      assert (Hpre' : resolve t v (pre ++ [SV]) = Some (vt, pv)).
+      { rewrite (resolve_app_eq _ [SV] _ _ _ _ Hpre). cbn [resolve]. now rewrite Ef. }
+      destruct (IH (pre ++ [SV]) top f vt pv Hpi' Hpre' (repf_refocus _ _ _ _ _ _ _ R HL') ltac:(lia)) as (top1 & Hm & Hex).
+      rewrite mpath_app in Hm, Hex. cbn [mpath map mstep_of] in Hm, Hex.
+      exists top1. split; [exact Hm|].
+      cbn beta iota. cbn [app].
+      rewrite exec_descend. unfold sub. rewrite Hg. cbn [obind]. rewrite Z.eqb_refl, Ef. cbn [negb].
+      destruct vt as [| | | |[|f0 fs]|]; try exact Hex.
+      apply resolve_unit_struct in Hrest. contradiction.
 Qed.
 
 (* success of "descent then F" is success of the dispatcher with the same result *)
 Lemma exec_tie_gen ovf t v s top pi X xv tail (F : ptr -> out res) r :
-  RepF [] t v s top -> resolve t v pi = Some (X, xv) ->
+  RepF [] t v s top -> resolve t v pi = Some (X, xv) -> X <> TStruct [] ->
   (forall f top' pc, get_at t top' (mpath pi) = Some (X, pc) ->
                      exec (S f) ovf t s top' (mpath pi) tail = F top') ->
   (do top1 <- menter ovf t s top [] pi; F top1) = Ok r ->
-  forall fuel, (length pi < fuel)%nat -> exec fuel ovf t s top [] (enc_path pi ++ tail) = Ok r.
+  forall fuel, (length pi < fuel)%nat -> exec fuel ovf t s top [] (enc_path t v pi ++ tail) = Ok r.
 Proof.
-  intros R Hres Hfin Hs fuel Hfuel.
-  destruct (exec_path_x ovf t v s F tail pi X xv Hres Hfin pi [] top fuel eq_refl R Hfuel) as (top1 & Hm & Hex).
+  intros R Hres HXne Hfin Hs fuel Hfuel.
+  destruct (exec_path_x ovf t v s F tail pi X xv Hres HXne Hfin pi [] top fuel t v eq_refl eq_refl R Hfuel) as (top1 & Hm & Hex).
   cbn [mpath map] in Hm, Hex. rewrite Hm in Hs. cbn [obind] in Hs.
   destruct Hex as [Hex|(code & topk & HF & _ & _)]; [rewrite Hex; exact Hs|congruence].
 Qed.
@@ -137,16 +158,16 @@ Qed.
 (* the same with an error of F: its code is reported, with the state reached by the descent when the path crosses a
    list of unsized elements (efail), as a plain Err otherwise *)
 Lemma exec_tie_gen_err ovf t v s top pi X xv tail (F : ptr -> out res) top1 c :
-  RepF [] t v s top -> resolve t v pi = Some (X, xv) ->
+  RepF [] t v s top -> resolve t v pi = Some (X, xv) -> X <> TStruct [] ->
   (forall f top' pc, get_at t top' (mpath pi) = Some (X, pc) ->
                      exec (S f) ovf t s top' (mpath pi) tail = F top') ->
   menter ovf t s top [] pi = Ok top1 -> F top1 = Err c ->
   forall fuel, (length pi < fuel)%nat ->
-  exec fuel ovf t s top [] (enc_path pi ++ tail) = Err c \/
-  exists topk, exec fuel ovf t s top [] (enc_path pi ++ tail) = Ok (s, topk, [-1; c]).
+  exec fuel ovf t s top [] (enc_path t v pi ++ tail) = Err c \/
+  exists topk, exec fuel ovf t s top [] (enc_path t v pi ++ tail) = Ok (s, topk, [-1; c]).
 Proof.
-  intros R Hres Hfin Hm Hop fuel Hfuel.
-  destruct (exec_path_x ovf t v s F tail pi X xv Hres Hfin pi [] top fuel eq_refl R Hfuel) as (top1' & Hm' & Hex).
+  intros R Hres HXne Hfin Hm Hop fuel Hfuel.
+  destruct (exec_path_x ovf t v s F tail pi X xv Hres HXne Hfin pi [] top fuel t v eq_refl eq_refl R Hfuel) as (top1' & Hm' & Hex).
   cbn [mpath map] in Hm', Hex. rewrite Hm in Hm'. injection Hm' as <-.
   destruct Hex as [Hex|(code & topk & HF & _ & Hex)].
   - left. rewrite Hex. exact Hop.
@@ -165,7 +186,7 @@ Definition xop_tail (o : xop) : list Z :=
   | XUClear _ => [33]
   end.
 
-Lemma enc_xop_split o : enc_xop o = enc_path (xfocus o) ++ xop_tail o.
+Lemma enc_xop_split t v o : enc_xop t v o = enc_path t v (xfocus o) ++ xop_tail o.
 Proof. destruct o as [g| | | | | |]; try reflexivity. apply enc_op_split. Qed.
 
 (* the kind of container each operation addresses *)
@@ -214,21 +235,23 @@ Qed.
 Lemma exec_tie_x ovf t v s top o X xv fuel :
   RepF [] t v s top -> resolve t v (xfocus o) = Some (X, xv) -> xop_kind o X -> (length (xfocus o) < fuel)%nat ->
   exists top1, menter ovf t s top [] (xfocus o) = Ok top1 /\
-    (exec fuel ovf t s top [] (enc_xop o) = mopX t s top1 o \/
+    (exec fuel ovf t s top [] (enc_xop t v o) = mopX t s top1 o \/
      exists code topk, mopX t s top1 o = Err code /\ code <> -9 /\
-                       exec fuel ovf t s top [] (enc_xop o) = Ok (s, topk, [-1; code])).
+                       exec fuel ovf t s top [] (enc_xop t v o) = Ok (s, topk, [-1; code])).
 Proof.
   intros R Hres Hk Hfuel. rewrite enc_xop_split.
-  exact (exec_path_x ovf t v s (fun top' => mopX t s top' o) (xop_tail o) (xfocus o) X xv Hres
+  assert (HXne : X <> TStruct []).
+  { destruct o; cbn [xop_kind] in Hk; try (destruct Hk as (? & ? & ->); discriminate); subst X; discriminate. }
+  exact (exec_path_x ovf t v s (fun top' => mopX t s top' o) (xop_tail o) (xfocus o) X xv Hres HXne
            (fun f top' pc Hg => exec_xop_tail f ovf t s top' o X pc Hk Hg)
-           (xfocus o) [] top fuel eq_refl R Hfuel).
+           (xfocus o) [] top fuel t v eq_refl eq_refl R Hfuel).
 Qed.
 
 (* success: the dispatcher returns exactly what descent + operation return *)
 Theorem exec_tie_x_ok ovf t v s top o r :
   RepF [] t v s top -> (exists v', ostepX (m_cap s) t v o = Some v') ->
   mstepX ovf t s top o = Ok r ->
-  forall fuel, (length (xfocus o) < fuel)%nat -> exec fuel ovf t s top [] (enc_xop o) = Ok r.
+  forall fuel, (length (xfocus o) < fuel)%nat -> exec fuel ovf t s top [] (enc_xop t v o) = Ok r.
 Proof.
   intros R [v' Ho] Hs fuel Hfuel.
   destruct (ostepX_kind _ _ _ _ _ Ho) as (X & xv & Hres & Hk).
@@ -244,7 +267,7 @@ Theorem exec_tie_x_err ovf t v s top o top1 c :
   (exists X xv, resolve t v (xfocus o) = Some (X, xv) /\ xop_kind o X) ->
   menter ovf t s top [] (xfocus o) = Ok top1 -> mopX t s top1 o = Err c ->
   forall fuel, (length (xfocus o) < fuel)%nat ->
-  exec fuel ovf t s top [] (enc_xop o) = Err c \/ exists topk, exec fuel ovf t s top [] (enc_xop o) = Ok (s, topk, [-1; c]).
+  exec fuel ovf t s top [] (enc_xop t v o) = Err c \/ exists topk, exec fuel ovf t s top [] (enc_xop t v o) = Ok (s, topk, [-1; c]).
 Proof.
   intros R (X & xv & Hres & Hk) Hm Hop fuel Hfuel.
   destruct (exec_tie_x ovf t v s top o X xv fuel R Hres Hk Hfuel) as (top1' & Hm' & Hex).
@@ -260,7 +283,7 @@ Corollary exec_tie_x_efail ovf t v s top o top1 s' top0 c :
   RepF [] t v s top ->
   (exists X xv, resolve t v (xfocus o) = Some (X, xv) /\ xop_kind o X) ->
   menter ovf t s top [] (xfocus o) = Ok top1 -> mopX t s top1 o = Ok (s', top0, [-1; c]) ->
-  forall fuel, (length (xfocus o) < fuel)%nat -> exec fuel ovf t s top [] (enc_xop o) = Ok (s', top0, [-1; c]).
+  forall fuel, (length (xfocus o) < fuel)%nat -> exec fuel ovf t s top [] (enc_xop t v o) = Ok (s', top0, [-1; c]).
 Proof.
   intros R (X & xv & Hres & Hk) Hm Hop fuel Hfuel.
   destruct (exec_tie_x ovf t v s top o X xv fuel R Hres Hk Hfuel) as (top1' & Hm' & Hex).
